@@ -204,6 +204,12 @@ Print Assumptions C19_uniform_quadratic_lebesgue.
 Theorem C19_uniform_quadratic_lebesgue1 a s tau : (0 < s)%R -> (0 <= tau <= 2)%R -> (lebesgue1 [a; a + s; a + 2 * s]%R (a + s * tau)%R <= 5 / s)%R.
 Proof. exact (uniform_quadratic_lebesgue1 a s tau). Qed.
 Print Assumptions C19_uniform_quadratic_lebesgue1.
+Theorem C19_uniform_quadratic_error a s f M tau : (0 < s)%R -> (0 <= tau <= 2)%R ->
+  (forall u, (a <= u <= a + 2 * s)%R -> forall k, k <= 3 -> ex_derive_n f k u) ->
+  (forall u, (a < u < a + 2 * s)%R -> (Rabs (Derive_n f 3 u) <= M)%R) ->
+  (Rabs (interp [a; a + s; a + 2 * s]%R f (a + s * tau) - f (a + s * tau)) <= (1 + 5 / 4) * (M * (a + 2 * s - a) ^ 3 / INR (fact 3)))%R.
+Proof. exact (uniform_quadratic_error a s f M tau). Qed.
+Print Assumptions C19_uniform_quadratic_error.
 Example C19_linear_grid_example t : (1 / 4 <= t <= 1)%R -> (Rabs (Iglobal gex 1 exp t - exp t) <= 3 * (1 / 2) ^ 2)%R.
 Proof. exact (linear_grid_example t). Qed.
 
